@@ -52,6 +52,9 @@ def configs(tier):
             for direct in (False, True):
                 cfgs.append(dict(group='imputer', shape=shape, use_storage=use_storage, direct=direct,
                                  q=2 if (use_storage or tier == 'thorough') else 1, _cost=200))
+    for shape in ('leaf', 'stump'):
+        for use_storage in (True, False):
+            cfgs.append(dict(group='imputer', shape=shape, use_storage=use_storage, direct=False, q=2 if use_storage else 1, early=True, _cost=200))
     cfgs.append(dict(group='paths_agree'))
     for shape in ('leaf', 'stump'):
         cfgs.append(dict(group='imputer_history', shape=shape, vary='a', _cost=600))
@@ -360,12 +363,16 @@ def _paths_agree(env, cfg, ctx):
 def _imputer(env, cfg, ctx):
     ts, trees = _make_storage(env, cfg, restructure=False)
     seen = []
+    model = UFModel(env, FEATURES)
+    if cfg.get('early'):
+        # the usual set-up order: storage and imputer are built first, data arrives afterwards
+        imp = guarded(env, 'ctor', TreeImputer, model, ts, direct_predict_numeric=cfg['direct'], use_storage=cfg['use_storage'])
     for t in range(2):
         x = _row(env, t)
         ts.update(x)
         seen.append(x)
-    model = UFModel(env, FEATURES)
-    imp = guarded(env, 'ctor', TreeImputer, model, ts, direct_predict_numeric=cfg['direct'], use_storage=cfg['use_storage'])
+    if not cfg.get('early'):
+        imp = guarded(env, 'ctor', TreeImputer, model, ts, direct_predict_numeric=cfg['direct'], use_storage=cfg['use_storage'])
     x = _row(env, 9)
     x_copy = dict(x)
     masks = [['c'], ['a'], ['c', 'a'], []]
